@@ -120,6 +120,15 @@ def r09_2(prog: Program, rep):
     bad = must_pass(g, cache, commit)
     rep.ob("R09.2", OS_PY, Q, "index committed before the pack becomes visible in the cache", not bad,
            "", g.nodes[cache[0]].line)
+    # an existing pack with the same name must be noticed before the rename: the check has to look at the pack
+    # DIRECTORY (self.packs rescans it), not only at the packs this process happens to have opened
+    rescan = [i for i, n in g.nodes.items() if n.kind == "for_init" and norm(n.ast.iter).replace(" ", "") in ("self.packs", "list(self.packs)")]
+    rescan += nodes_calling(g, lambda c: callee_name(c) == "_update_pack_cache")
+    bad = must_pass(g, rename, rescan)
+    rep.ob("R09.2", OS_PY, Q, "existing packs are looked up with a directory rescan before the rename", bool(rescan) and not bad,
+           "the 'already packed' test only consults the in-memory pack cache: a fresh process renames the new .pack over an "
+           "existing pack of the same name while the old .idx is still in place; a crash before the index is rewritten leaves "
+           "a pack paired with the wrong index", g.nodes[rename[0]].line)
     chk = nodes_calling(g, lambda c: callee_name(c) == "check_length_and_checksum")
     bad = must_pass(g, cache, chk)
     rep.ob("R09.2", OS_PY, Q, "installed pack is validated before it becomes visible in the cache", bool(chk) and not bad,
